@@ -34,7 +34,7 @@ pub(super) fn check_step(t: &mut VmGreenThread, mut model: Vec<Value>, dm: M, od
             assert!(t.error.is_none(), "no error expected");
             assert!(t.pc.0 == 1, "pc advances by one");
             assert!(same_stack(&t.value_stack, &model), "stack after the step matches the model");
-            kani::cover!(true, "req: success outcome reachable");
+            kani::cover!(true, "reqr: success outcome reachable");
         }
         Exp::Err(k) => {
             assert!(can_err, "this arm has no error outcome in the specification");
@@ -44,6 +44,8 @@ pub(super) fn check_step(t: &mut VmGreenThread, mut model: Vec<Value>, dm: M, od
         }
     }
     assert!(t.pending_host_func.is_none() && !t.done);
+    // vacuity witness: some outcome was checked (an outcome that this harness' pre-state family excludes is dead code, hence "reqr")
+    kani::cover!(true, "reqr: a checked outcome is reachable");
 }
 
 // dest, reg1, reg2 arm over one operand tag.
